@@ -20,6 +20,7 @@ import (
 	"net/http/httptest"
 	"os"
 	"path/filepath"
+	"reflect"
 	"runtime"
 	"sort"
 	"strconv"
@@ -93,6 +94,7 @@ type gen struct {
 	wgid   map[int64]string // worker goroutine id -> "wi" | "wr"
 	enq    []qitem          // store-level enqueue notices since the last collect
 	parked map[string]*event
+	finder map[int64]bool // goroutines that have just passed gfinder.Find
 }
 
 type qitem struct {
@@ -246,10 +248,42 @@ func (f *gfs) GetCacheFileReader(name string) (store.FileReader, error) {
 	return f.cas.GetCacheFileReader(name)
 }
 func (f *gfs) DeleteCacheFileMetadata(name string, md metadata.Metadata) error {
-	if f.g.park("clear", "", name) == "abort" {
+	if !f.g.passedFinder() { // candidate repair F31b: the same "clear" step began in gfinder.Find
+		if f.g.park("clear", "", name) == "abort" {
+			return errDead
+		}
+	}
+	if f.g.dead.Load() {
 		return errDead
 	}
 	return f.cas.DeleteCacheFileMetadata(name, md)
+}
+
+// gfinder is handed to an executor that has WithTaskFinder (candidate repair F31b: the executor looks for tasks of
+// other namespaces before it clears the persist flag). The look-up and the clearing are one step of the model,
+// so the "clear" gate moves here and gfs.DeleteCacheFileMetadata does not stop again.
+type gfinder struct {
+	g *gen
+	s *writeback.Store
+}
+
+func (f *gfinder) Find(q interface{}) ([]persistedretry.Task, error) {
+	if f.g.park("clear", "", "") == "abort" {
+		return nil, errDead
+	}
+	f.g.mu.Lock()
+	f.g.finder[goid()] = true
+	f.g.mu.Unlock()
+	return f.s.Find(q)
+}
+
+func (g *gen) passedFinder() bool {
+	g.mu.Lock()
+	defer g.mu.Unlock()
+	id := goid()
+	ok := g.finder[id]
+	delete(g.finder, id)
+	return ok
 }
 
 // the task table
@@ -549,7 +583,7 @@ func (n *node) mgrConfig() persistedretry.Config {
 
 // boot starts one life of the origin process on the node's directories, sqlite file and backends.
 func (n *node) boot() error {
-	g := &gen{c: n.c, wgid: map[int64]string{}, parked: map[string]*event{}}
+	g := &gen{c: n.c, wgid: map[int64]string{}, parked: map[string]*event{}, finder: map[int64]bool{}}
 	off := store.CleanupConfig{Disabled: true}
 	cas, casClose := store.CAStoreFixtureWithClock(store.CAStoreConfig{
 		UploadDir: filepath.Join(n.dir, "upload"), CacheDir: filepath.Join(n.dir, "cache"),
@@ -565,8 +599,14 @@ func (n *node) boot() error {
 			return err
 		}
 	}
+	wbs := writeback.NewStore(db)
 	ex := writeback.NewExecutor(tally.NoopScope, &gfs{g: g, cas: cas}, bm)
-	mgr, err := persistedretry.NewManager(n.mgrConfig(), tally.NoopScope, &gstore{g: g, s: writeback.NewStore(db)}, ex)
+	// wiring of origin/cmd: a tree with the candidate repair F31b gives the executor access to the task table
+	if m := reflect.ValueOf(ex).MethodByName("WithTaskFinder"); m.IsValid() && m.Type().NumIn() == 1 &&
+		reflect.TypeOf(&gfinder{}).AssignableTo(m.Type().In(0)) {
+		m.Call([]reflect.Value{reflect.ValueOf(&gfinder{g: g, s: wbs})})
+	}
+	mgr, err := persistedretry.NewManager(n.mgrConfig(), tally.NoopScope, &gstore{g: g, s: wbs}, ex)
 	if err != nil {
 		return err
 	}
